@@ -372,14 +372,14 @@ if (WIFSIGNALED(status)) error = 128 + WTERMSIG(status);
 ```
 (a stopped child - not reported by `waitpid(pid, &status, 0)` - would leave the initial value 1). -/
 def execStatus (status : Nat) : Int :=
-  let error : Int := 1
+  let error : Int := Gen.execInitialValue
   let error : Int :=
-    if wifexited status then (if wexitstatus status == 127 then -1 else (wexitstatus status : Int)) else error
-  if wifsignaled status then ((128 + wtermsig status : Nat) : Int) else error
+    if wifexited status then (if wexitstatus status == Gen.execFatalExit then Gen.execFatalValue else (wexitstatus status : Int)) else error
+  if wifsignaled status then ((Gen.execSignalBase + wtermsig status : Nat) : Int) else error
 
 /-- The child of `exec()`: `execvp(argv[0], argv); warn(...); _exit(127);` - whatever the reason `execvp` fails for
 (ENOENT, EACCES, ENOTDIR, ENOEXEC, ...), the child exits with this status, which the parent maps to -1. -/
-def execvpFailedStatus : Nat := 127
+def execvpFailedStatus : Nat := Gen.execChildExit
 
 /-- `exec(argv, fdin)`: `> 0` exited non-zero / signalled, `0` success, `< 0` fatal. -/
 def execP (fdin : Option Handle) : Prog Int := do
